@@ -167,5 +167,18 @@ def run(ctx):
                        e, "" if (fresh and n is not None) else "the creation branch does "
                        "not generate a new id")
     ctx.require("R03.create", nc, 1, "INSERTs into nameplates")
+    # a nameplate whose last claim was released must really be retired, also
+    # when the release is re-sent after a crash between its two commits:
+    # otherwise the next claimant of the name inherits the old mailbox id
+    from .c10 import _resume
+    from ..report import Ctx
+    sub = Ctx(model, "C10", ctx.tier)
+    _resume(sub)
+    ctx.rule("R03.retire", "the retirement phase of release is reachable from the "
+             "half-done state (same rule as R10.resume): a released name gets a fresh "
+             "mailbox in its next incarnation")
+    for o in sub.obligations:
+        if "nameplates" in o.construct:
+            ctx.ob("R03.retire", o.construct, o.ok, o.site, o.detail)
     ctx.assume("fresh 64-bit random ids do not collide with stored ones (probabilistic; "
                "not decided)")
